@@ -663,6 +663,8 @@ class Evaluator:
         for suffix, hook in getattr(self, "intercept", {}).items():
             if name.endswith(suffix) or short.endswith(suffix):
                 return hook(args)       # a callee the caller of the evaluator models itself (e.g. a scripted bit source)
+        if short.startswith("core::cmp::PartialOrd::") and "tracing_core::metadata::Level" in " ".join(str(q) for q in (c.get("args") or [])):
+            return 0        # `tracing` events: the level test is modelled as "disabled" (no subscriber), so the event body is skipped
         if short.endswith("ops::try_trait::Try::branch") and len(args) == 1 and isinstance(args[0], Enum) and args[0].name in ("Ok", "Err", "Some", "None"):
             o = args[0]
             if o.name in ("Ok", "Some"):
@@ -1037,6 +1039,20 @@ class Evaluator:
             a0.buf.extend(vals)
             a0.n += len(vals)
             return ()
+        if sh0 == "core::iter::traits::iterator::Iterator::collect" and len(args) == 1 and isinstance(args[0], PyIter) and c.get("args") \
+                and str(c["args"][-1]).startswith("core::result::Result<"):
+            # collect::<Result<C, E>>(): stops at the first Err; the container (Vec / set / map) is kept as the list of its items
+            out_ = []
+            it = args[0]
+            while it.pos < len(it.items):
+                it.pos += 1
+                x = self._force(it.items[it.pos - 1])
+                if not (isinstance(x, Enum) and x.name in ("Ok", "Err")):
+                    raise Unsupported("collect into Result of %r" % (x,))
+                if x.name == "Err":
+                    return Enum("core::result::Result", 1, "Err", list(x.fields))
+                out_.append(x.fields[0])
+            return Enum("core::result::Result", 0, "Ok", [BufView(out_)])
         if sh0 == "core::iter::traits::iterator::Iterator::collect" and len(args) == 1 and isinstance(args[0], PyIter) and "Vec<" in " ".join(str(q) for q in (c.get("args") or [])):
             vals = [x.buf[x.i] if isinstance(x, ElemRef) else x for x in self._drain(args[0])]
             return BufView(vals)
